@@ -6,7 +6,7 @@ set -u
 cd "$(dirname "$0")/.."
 V="$PWD"
 pat="${1:-*}"; tier="${2:-quick}"
-S="${SCRATCH:-/tmp/mutscratch-$$}"
+S="${SCRATCH:-/tmp/vscratch}"
 mkdir -p "$S/root"
 cp "$V/known_findings.json" "$S/root/" 2>/dev/null
 fam_of() { grep -E "^\s+[C0-9|]+\) echo fam_" "$V/check" | while read -r line; do ids="${line%%)*}"; pkg="${line##*echo }"; pkg="${pkg%% *}"; for i in ${ids//|/ }; do [ "$i" = "$1" ] && echo "$pkg"; done; done; }
